@@ -78,5 +78,21 @@ package reclaim
 // statement.Commit() is reached only with the statement a successful attempt returned (preconditions of Commit, proved at
 // the call site); after a failed attempt nothing is committed and only then is the job recorded ([recordsOnlyFailedJobs]).
 // C10: no panic on any path (a non-empty order yields a job; the statement is dereferenced only after success).
-// (Execute block parked in /tmp/exec2-w/reclaim_execute_block.txt until the attempt-havoc frame is settled)
+// C05 "within one cycle": the action ends only when the job order is empty - every candidate job was popped and either
+// skipped for one of the two reasons above or attempted ([orderDrained]; a failed attempt does not stop the loop).
+//@ func (*reclaimAction).Execute
+//@   props C05 C06 C07 C03 C10
+//@   usestable MinimalJobRepresentatives.representatives map[common_info.SchedulingConstraintsSignature]*podgroup_info.PodGroupInfo PodGroupInfo.Queue Session.ClusterInfo
+//@   requires ssn != nil && ssn.ClusterInfo != nil && ssn.Config != nil && sessionJobsOK(ssn)
+//@   requires [queueDepthNotZero] ssn.GetJobsDepth("reclaim") != 0
+//@   modifies *
+//@   loop 1
+//@     modifies *
+//@     invariant [tablesExist] forall q in smallestFailedJobsByQueue :: smallestFailedJobsByQueue[q] != nil && allocated(smallestFailedJobsByQueue[q]) && allocated(smallestFailedJobsByQueue[q].representatives)
+//@     invariant [tablesSeparate] forall q1 in smallestFailedJobsByQueue :: forall q2 in smallestFailedJobsByQueue :: q1 != q2 ==> smallestFailedJobsByQueue[q1].representatives != smallestFailedJobsByQueue[q2].representatives
+//@     invariant [tablesWellFormed] forall q in smallestFailedJobsByQueue :: common.repsWF(smallestFailedJobsByQueue[q])
+//@     invariant [storedJobsExist] forall q in smallestFailedJobsByQueue :: forall k in smallestFailedJobsByQueue[q].representatives :: allocated(smallestFailedJobsByQueue[q].representatives[k])
+//@     invariant [perQueueScope] forall q in smallestFailedJobsByQueue :: common.repsAllInQueue(smallestFailedJobsByQueue[q], q)
+//@   ensures [orderDrained] utils.orderEmpty(jobsOrderByQueues)
+//@ end
 // ---- end exec2 ----
